@@ -230,6 +230,9 @@ def proto_names(run: Run):
 def run(run: Run):
     stage1(run)
     proto_names(run)
+    # the import lines of a types module: every foreign field type is imported (a same-named module of another package is not "the file itself")
+    from props import C02
+    C02.imports_of_types_module(run)
     tables(run)
     bounded_uri(run)
     run.native_standin("props.C12_native", "scenarios",
